@@ -20,13 +20,24 @@ MON = {"toc", "reopen"}
 
 def units(tier, seed):
     # (first unit: the repository's own tests as one more workload under the TOC oracle)
-    return [{"kind": "pytest"}] + CC.make_units(tier, seed, 700, 16000)
+    from vlib.matrix import matrix_histories
+    nm = len(matrix_histories())
+    idx = list(range(nm)) if tier == "thorough" else [i for i in range(nm) if (i + seed) % 3 == 0]
+    mat = [{"kind": "matrix", "idx": idx[i:i + 6], "driver": drv} for drv in ("h5", "ih5") for i in range(0, len(idx), 6)]
+    return [{"kind": "pytest"}] + mat + CC.make_units(tier, seed, 700, 16000)
 
 
 def run_unit(u, acc):
     if u.get("kind") == "pytest":
         from vlib import pytest_workload
         return pytest_workload.run(acc, "toc", "upstream-suite")
+    if u.get("kind") == "matrix":
+        from vlib.matrix import matrix_histories
+        hs = matrix_histories()
+        for i in u["idx"]:
+            acc.count("matrix_histories")
+            CC.check_case(acc, {"driver": u["driver"], "seed": 0, "ops": hs[i]}, MON)
+        return
     CC.run_units(u, acc, MON)
 
 
